@@ -12,9 +12,10 @@ from bctmc import oracles as orc
 from bctmc import named
 from bctmc.runner import guarded
 from bctmc.tally import Tally
+from bctmc import dtypes
 
 PROPERTY = 'C03'
-RULE = ('every free tree on 8 nodes under the scan orders of bctmc/trees.py (951 labelled trees, 0/1); a fixed family of ~100 structured graphs on 7-10 nodes (bctmc/named.py: paths, cycles, stars, wheels, cliques, '
+RULE = ('five structured graphs on 144-200 nodes (bctmc/named.py large_undirected) for distance_bin/breadthdist/reachdist; element types: every routine also on int64 / int32 / uint8 / bool copies of all 3-node digraphs over {0,1} and {0,1,2}, 4-node graphs over {0,1,2}, 5-node binary graphs (same values as for float64; integers must not raise, a boolean matrix may be rejected with TypeError); every free tree on 8 nodes under the scan orders of bctmc/trees.py (951 labelled trees, 0/1); a fixed family of ~100 structured graphs on 7-10 nodes (bctmc/named.py: paths, cycles, stars, wheels, cliques, '
         'bipartite, ladders, trees, unions with isolated nodes, DAGs, tournaments; binary, lengths {1,2},{1,2,3}, near-tie) and '
         'every labelled digraph / undirected graph of the stated families (binary n<=4 dir, n<=5 und, and the five-node digraphs with <= 8 connections (thorough: all 2^20) for distance_bin/breadthdist/reachdist (reachdist with ensure_binary True and False); '
         'lengths {1,2,3} and the near-tie alphabet {1, 2, 2+2^-20} (1+1 is shorter than 2+2^-20 by less than any common tolerance) on 3-node digraphs and 4-node graphs; weights {1,1/2,1/4} for inv/log; thorough adds '
@@ -46,11 +47,20 @@ FAMILIES = {
 }
 
 
-NAMED = {'named:bintree8_und': 'bin', 'named:bin_und': 'bin', 'named:bin_dir': 'bin', 'named:len_und': 'len', 'named:len_dir': 'len',
+NAMED = {'named:large_und': 'reach', 'named:bintree8_und': 'bin', 'named:bin_und': 'bin', 'named:bin_dir': 'bin', 'named:len_und': 'len', 'named:len_dir': 'len',
          'named:neartie_und': 'len', 'named:neartie_dir': 'len'}
 
 
 THOROUGH = [False]
+
+
+ETYPE_FUNCS = [
+    ('distance_bin', bct.distance_bin, None), ('distance_wei', bct.distance_wei, None),
+    ('distance_wei_floyd', bct.distance_wei_floyd, None), ('breadthdist', bct.breadthdist, None),
+    ('reachdist', bct.reachdist, None), ('efficiency_bin', bct.efficiency_bin, None),
+    ('efficiency_wei', bct.efficiency_wei, None),
+    ('charpath[distance_bin]', lambda A: bct.charpath(bct.distance_bin(A))[:2], None),
+]
 
 
 def plan(ctx):
@@ -66,6 +76,7 @@ def plan(ctx):
         tot = ss.dir_count(n, alpha) if directed else ss.und_count(n, alpha)
         for (a, b) in ss.ranges(tot, max(1, min(400, tot // 150))):
             units.append((name, a, b))
+    units += dtypes.units(dtypes.STD_FAMILIES)
     return units
 
 
@@ -238,6 +249,8 @@ def check_case(t, name, X, case):
 
 
 def work(unit):
+    if unit[0] == 'etype':
+        return dtypes.work_unit(PROPERTY, ETYPE_FUNCS, unit)
     name, a, b = unit
     t = Tally(PROPERTY)
     for idx in range(a, b):
@@ -257,6 +270,8 @@ def work(unit):
 
 
 def replay(rec):
+    if rec['case'].get('family') == 'element_types':
+        return dtypes.replay(PROPERTY, ETYPE_FUNCS, rec['case'])
     t = Tally(PROPERTY)
     case = rec['case']
     check_case(t, case['family'], np.array(case['X'], dtype=float), case)
